@@ -43,6 +43,38 @@ type liveGroup struct {
 	Rpol  string `json:"rpol"`
 	Batch string `json:"batch"` // "" (platform default: recvmmsg/sendmmsg on Linux) or "no"
 	Cases []expJ `json:"cases"`
+	// Listen is what the relay's listener is bound to: "" = the loopback address of Lfam, "dual" = [::] (an IPv4
+	// client is then seen as ::ffff:127.0.0.1).  Sessions are client sessions of specs/Packet/UdpSession.tla that
+	// change their address; a group with sessions runs them instead of Cases.
+	Listen   string        `json:"listen,omitempty"`
+	Sessions []liveSession `json:"sessions,omitempty"`
+}
+
+// clientJ is a client address of the session model: the kind the listener reports ("v4", "m4" = IPv4-mapped on a
+// dual-stack listener, "v6") and which of the client's sockets of that family it is.
+type clientJ struct {
+	K string `json:"k"`
+	S int    `json:"s"`
+}
+
+func (a clientJ) fam() string {
+	if a.K == "v6" {
+		return "v6"
+	}
+	return "v4"
+}
+
+// migJ places a reply in the life of its session: the addresses the session was at (the last one is current), and
+// whether the reply is the first one after the last change of address.
+type migJ struct {
+	Path  []clientJ `json:"path"`
+	Fresh bool      `json:"fresh"`
+}
+
+// liveSession is one client session: Stages[i] are the replies (downlink cases) expected while the client is at Path[i].
+type liveSession struct {
+	Path   []clientJ `json:"path"`
+	Stages [][]expJ  `json:"stages"`
 }
 
 func loopback(fam string) string {
@@ -140,6 +172,8 @@ type liveRunner struct {
 	ups  *link
 	htgt conn.Addr // target of hello datagrams
 	last *link     // the downstream client session whose datagram the upstream side saw last: replies belong to it
+	dst  netip.AddrPort // where the downstream client sends instead of its packer's destination (sessions that change their address)
+	kp   string         // prefix of the violation keys: "udp.live" or, for sessions that change their address, "udp.migrate"
 }
 
 func (r *liveRunner) fill(b []byte) {
@@ -153,13 +187,17 @@ func (r *liveRunner) fill(b []byte) {
 
 func (r *liveRunner) violation(e *expJ, key, text string, exp, obs any) {
 	c := &e.C
-	r.res.Violation(vio.Finding{Key: key, Text: fmt.Sprintf("%s  [live relay %s->%s batch=%q case %s addr %s L=%d mtu s/c/o=%d/%d/%d fam %s/%s pol %s/%s allc=%v]",
-		text, c.Sp, c.Cp, r.g.Batch, c.Dir, c.A, c.L, c.Smtu, c.Cmtu, c.Omtu, c.Lfam, c.Ufam, c.Opol, c.Rpol, c.Allc), Expected: exp, Observed: obs,
+	mig := ""
+	if e.Mig != nil {
+		mig = fmt.Sprintf(" listener %q, the session was at %v (first reply after the move: %v), limit of the current family %d", r.g.Listen, e.Mig.Path, e.Mig.Fresh, e.R.Max)
+	}
+	r.res.Violation(vio.Finding{Key: key, Text: fmt.Sprintf("%s  [live relay %s->%s batch=%q case %s addr %s L=%d mtu s/c/o=%d/%d/%d fam %s/%s pol %s/%s allc=%v%s]",
+		text, c.Sp, c.Cp, r.g.Batch, c.Dir, c.A, c.L, c.Smtu, c.Cmtu, c.Omtu, c.Lfam, c.Ufam, c.Opol, c.Rpol, c.Allc, mig), Expected: exp, Observed: obs,
 		Replay: map[string]any{"live": r.g.header(), "case": e}})
 }
 
 func (g *liveGroup) header() map[string]any {
-	return map[string]any{"sp": g.Sp, "cp": g.Cp, "smtu": g.Smtu, "cmtu": g.Cmtu, "lfam": g.Lfam, "ufam": g.Ufam, "allc": g.Allc, "opol": g.Opol, "rpol": g.Rpol, "batch": g.Batch}
+	return map[string]any{"sp": g.Sp, "cp": g.Cp, "smtu": g.Smtu, "cmtu": g.Cmtu, "lfam": g.Lfam, "ufam": g.Ufam, "allc": g.Allc, "opol": g.Opol, "rpol": g.Rpol, "batch": g.Batch, "listen": g.Listen}
 }
 
 var errTimeout = errors.New("nothing arrived")
@@ -196,6 +234,9 @@ func (r *liveRunner) sendUp(l *link, target conn.Addr, payload []byte) (bool, er
 			return false, nil
 		}
 		return false, err
+	}
+	if r.dst.IsValid() {
+		dest = r.dst
 	}
 	_, err = r.d.WriteToUDPAddrPort(b[s:s+n], dest)
 	return true, err
@@ -371,7 +412,7 @@ func (r *liveRunner) runUp(e *expJ, buf []byte) {
 		}
 		if !sent {
 			if !e.O.E {
-				r.violation(e, "udp.live/fitting-payload-refused:"+codecName(c.Sp), "the downstream client's packer refuses a payload the model packs", "packed", "ErrPayloadTooBig")
+				r.violation(e, r.kp+"/fitting-payload-refused:"+codecName(c.Sp), "the downstream client's packer refuses a payload the model packs", "packed", "ErrPayloadTooBig")
 			}
 			return
 		}
@@ -393,7 +434,7 @@ func (r *liveRunner) runUp(e *expJ, buf []byte) {
 				}
 				r.res.Break("live: neither the datagram nor its fence arrived upstream (%s->%s)", c.Sp, c.Cp)
 			} else {
-				r.violation(e, "udp.live/upstream-rejects:"+codecName(c.Cp), "the upstream server cannot unpack what the relay sent: "+err.Error(), nil, nil)
+				r.violation(e, r.kp+"/upstream-rejects:"+codecName(c.Cp), "the upstream server cannot unpack what the relay sent: "+err.Error(), nil, nil)
 			}
 			return
 		}
@@ -403,7 +444,7 @@ func (r *liveRunner) runUp(e *expJ, buf []byte) {
 			if attempt < 2 {
 				continue // a lost datagram is not a statement about the relay: once more
 			}
-			r.violation(e, "udp.live/fitting-datagram-dropped:"+codecName(c.Cp), fmt.Sprintf("the relay did not forward a payload of %d bytes that fits (three times), the fence behind it arrived", c.L), "forwarded", "dropped")
+			r.violation(e, r.kp+"/fitting-datagram-dropped:"+codecName(c.Cp), fmt.Sprintf("the relay did not forward a payload of %d bytes that fits (three times), the fence behind it arrived", c.L), "forwarded", "dropped")
 			return
 		case isFence:
 			r.res.Count("live_dropped_as_expected", 1)
@@ -411,16 +452,16 @@ func (r *liveRunner) runUp(e *expJ, buf []byte) {
 		}
 		// the datagram itself arrived: drain its fence afterwards
 		if w := wireSize(n, c.Ufam); w > c.Cmtu {
-			r.violation(e, "udp.live/exceeds-mtu:"+codecName(c.Cp), fmt.Sprintf("the relay sent a datagram of %d bytes: an IP packet of %d bytes over %s, client MTU %d", n, w, c.Ufam, c.Cmtu), c.Cmtu, w)
+			r.violation(e, r.kp+"/exceeds-mtu:"+codecName(c.Cp), fmt.Sprintf("the relay sent a datagram of %d bytes: an IP packet of %d bytes over %s, client MTU %d", n, w, c.Ufam, c.Cmtu), c.Cmtu, w)
 		}
 		if !deliver {
-			r.violation(e, "udp.live/oversize-forwarded:"+codecName(c.Cp), fmt.Sprintf("the relay forwarded a payload of %d bytes as a datagram of %d bytes, the model refuses it (stage %s)", c.L, n, e.St), e.St, n)
+			r.violation(e, r.kp+"/oversize-forwarded:"+codecName(c.Cp), fmt.Sprintf("the relay forwarded a payload of %d bytes as a datagram of %d bytes, the model refuses it (stage %s)", c.L, n, e.St), e.St, n)
 		}
 		if !bytes.Equal(got, payload) {
-			r.violation(e, "udp.live/payload-changed:"+codecName(c.Cp), fmt.Sprintf("payload of %d bytes arrived as %d bytes / different bytes", len(payload), len(got)), len(payload), len(got))
+			r.violation(e, r.kp+"/payload-changed:"+codecName(c.Cp), fmt.Sprintf("payload of %d bytes arrived as %d bytes / different bytes", len(payload), len(got)), len(payload), len(got))
 		}
 		if !sameAddr(target, addr) {
-			r.violation(e, "udp.live/address-changed:"+codecName(c.Cp), "the address arrived different", target.String(), addr.String())
+			r.violation(e, r.kp+"/address-changed:"+codecName(c.Cp), "the address arrived different", target.String(), addr.String())
 		}
 		r.res.Count("live_delivered", 1)
 		for {
@@ -462,7 +503,7 @@ func (r *liveRunner) runDown(e *expJ, buf []byte) {
 		}
 		if !sent {
 			if !e.O.E {
-				r.violation(e, "udp.live/fitting-payload-refused:"+codecName(c.Cp), "the upstream server's packer refuses a payload the model packs", "packed", "ErrPayloadTooBig")
+				r.violation(e, r.kp+"/fitting-payload-refused:"+codecName(c.Cp), "the upstream server's packer refuses a payload the model packs", "packed", "ErrPayloadTooBig")
 			}
 			return
 		}
@@ -482,7 +523,7 @@ func (r *liveRunner) runDown(e *expJ, buf []byte) {
 				}
 				r.res.Break("live: neither the reply nor its fence arrived downstream (%s<-%s)", c.Sp, c.Cp)
 			} else {
-				r.violation(e, "udp.live/downstream-rejects:"+codecName(c.Sp), "the downstream client cannot unpack what the relay sent: "+err.Error(), nil, nil)
+				r.violation(e, r.kp+"/downstream-rejects:"+codecName(c.Sp), "the downstream client cannot unpack what the relay sent: "+err.Error(), nil, nil)
 			}
 			return
 		}
@@ -493,23 +534,23 @@ func (r *liveRunner) runDown(e *expJ, buf []byte) {
 				r.repoint(buf)
 				continue
 			}
-			r.violation(e, "udp.live/fitting-datagram-dropped:"+codecName(c.Sp), fmt.Sprintf("the relay did not return a payload of %d bytes that fits (three times), the fence behind it arrived", c.L), "forwarded", "dropped")
+			r.violation(e, r.kp+"/fitting-datagram-dropped:"+codecName(c.Sp), fmt.Sprintf("the relay did not return a payload of %d bytes that fits (three times), the fence behind it arrived", c.L), "forwarded", "dropped")
 			return
 		case isFence:
 			r.res.Count("live_dropped_as_expected", 1)
 			return
 		}
 		if w := wireSize(n, c.Lfam); w > c.Smtu {
-			r.violation(e, "udp.live/exceeds-mtu:"+codecName(c.Sp), fmt.Sprintf("the relay returned a datagram of %d bytes: an IP packet of %d bytes over %s, server MTU %d", n, w, c.Lfam, c.Smtu), c.Smtu, w)
+			r.violation(e, r.kp+"/exceeds-mtu:"+codecName(c.Sp), fmt.Sprintf("the relay returned a datagram of %d bytes: an IP packet of %d bytes over %s, server MTU %d", n, w, c.Lfam, c.Smtu), c.Smtu, w)
 		}
 		if !deliver {
-			r.violation(e, "udp.live/oversize-forwarded:"+codecName(c.Sp), fmt.Sprintf("the relay returned a payload of %d bytes as a datagram of %d bytes, the model refuses it (stage %s)", c.L, n, e.St), e.St, n)
+			r.violation(e, r.kp+"/oversize-forwarded:"+codecName(c.Sp), fmt.Sprintf("the relay returned a payload of %d bytes as a datagram of %d bytes, the model refuses it (stage %s)", c.L, n, e.St), e.St, n)
 		}
 		if !bytes.Equal(got, payload) {
-			r.violation(e, "udp.live/payload-changed:"+codecName(c.Sp), fmt.Sprintf("payload of %d bytes arrived as %d bytes / different bytes", len(payload), len(got)), len(payload), len(got))
+			r.violation(e, r.kp+"/payload-changed:"+codecName(c.Sp), fmt.Sprintf("payload of %d bytes arrived as %d bytes / different bytes", len(payload), len(got)), len(payload), len(got))
 		}
 		if c.Sp != "direct" && !sameAddr(conn.AddrFromIPPort(source), conn.AddrFromIPPort(addr)) {
-			r.violation(e, "udp.live/address-changed:"+codecName(c.Sp), "the source address arrived different", source.String(), addr.String())
+			r.violation(e, r.kp+"/address-changed:"+codecName(c.Sp), "the source address arrived different", source.String(), addr.String())
 		}
 		r.res.Count("live_delivered", 1)
 		for {
@@ -522,6 +563,110 @@ func (r *liveRunner) runDown(e *expJ, buf []byte) {
 			}
 			return
 		}
+	}
+}
+
+// clientSocket opens a socket of the downstream client for an address of the session model.
+func clientSocket(a clientJ) (*net.UDPConn, error) {
+	c, _, err := listenUDP(a.fam())
+	return c, err
+}
+
+// announce sends a datagram of the session from the client's current socket and waits until the upstream side has
+// it: the relay stores a session's new client address before it forwards the packet that revealed it, so from
+// then on the downlink knows where the client is.  It reports the relay's client socket as upstream saw it.
+func (r *liveRunner) announce(l *link, buf []byte) (netip.AddrPort, bool) {
+	for i := 0; i < 40; i++ {
+		r.seq++
+		hello := []byte(fmt.Sprintf("C05-HELLO-AT-%d", r.seq))
+		if sent, err := r.sendUp(l, r.htgt, hello); err != nil || !sent {
+			r.res.Break("live: session hello: %v", err)
+			return netip.AddrPort{}, false
+		}
+		for {
+			_, got, _, err := r.recvUp(buf, r.htgt, 250*time.Millisecond)
+			if err != nil {
+				break
+			}
+			if bytes.Equal(got, hello) {
+				return r.nat, true
+			}
+		}
+	}
+	r.res.Break("live: the relay %s->%s (listener %q, batch %q) never forwarded a datagram of the session sent from %s to %s", r.g.Sp, r.g.Cp, r.g.Listen, r.g.Batch, r.d.LocalAddr(), r.dst)
+	return netip.AddrPort{}, false
+}
+
+// runSessions plays the group's client sessions (specs/Packet/UdpSession.tla) on the live relay: every session is
+// a real Shadowsocks 2022 client session (one session id) that speaks from the sockets of its path in turn; at every
+// address the model's replies are sent from the upstream side and judged where the client is now (runDown: the
+// size limit of the current family, delivered intact if it fits, refused if it does not).
+func (r *liveRunner) runSessions(buf []byte) {
+	g := r.g
+	r.kp = "udp.migrate"
+	socks := map[clientJ]*net.UDPConn{}
+	defer func() {
+		for _, c := range socks {
+			c.Close()
+		}
+	}()
+	for si := range g.Sessions {
+		s := &g.Sessions[si]
+		if len(s.Stages) != len(s.Path) {
+			r.res.Break("live: session %d has %d stages for %d addresses", si, len(s.Stages), len(s.Path))
+			return
+		}
+		l, err := r.w.link(linkKey{proto: g.Sp, mtu: 1500, fam: g.Lfam, cpol: g.Opol, spol: g.Rpol, sa: netip.AddrPortFrom(netip.MustParseAddr(loopback(g.Lfam)), r.rAP.Port()), n: si + 1})
+		if err != nil {
+			r.res.Break("live: downstream link: %v", err)
+			return
+		}
+		r.last = l
+		var nat netip.AddrPort
+		for st, a := range s.Path {
+			if len(r.res.Broken) > 0 {
+				return
+			}
+			sock := socks[a]
+			if sock == nil {
+				if sock, err = clientSocket(a); err != nil {
+					r.res.Break("live: client socket %v: %v", a, err)
+					return
+				}
+				socks[a] = sock
+			}
+			r.d, r.dst = sock, netip.AddrPortFrom(netip.MustParseAddr(loopback(a.fam())), r.rAP.Port())
+			at, ok := r.announce(l, buf)
+			if !ok {
+				return
+			}
+			if st > 0 {
+				r.res.Count("mig_moves", 1)
+				if a.fam() != s.Path[st-1].fam() {
+					r.res.Count("mig_family_changes", 1)
+				}
+				if at != nat {
+					// the relay opened another upstream socket: it did not continue the session (not C05's subject)
+					r.res.DriftNote(vio.Finding{Key: "udp.migrate/session-not-continued", Text: fmt.Sprintf("listener %q: after the client moved from %v to %v the relay's upstream socket changed from %s to %s", g.Listen, s.Path[st-1], a, nat, at)})
+				}
+			}
+			nat = at
+			for i := range s.Stages[st] {
+				e := &s.Stages[st][i]
+				if len(r.res.Broken) > 0 {
+					return
+				}
+				if e.C.Dir != "down" || e.C.Lfam != a.fam() || e.Mig == nil {
+					r.res.Break("live: session %d stage %d: case %s over %s while the client is at %v", si, st, e.C.Dir, e.C.Lfam, a)
+					return
+				}
+				r.runDown(e, buf)
+				r.res.AddSteps(1, 2)
+				r.res.Count("mig_replies", 1)
+				r.res.Seen(fmt.Sprintf("mig %s %s %v %v %s %s %d", g.Listen, g.Batch, e.Mig.Path, e.Mig.Fresh, e.C.A.K, e.St, e.R.Need-e.R.Max))
+			}
+		}
+		r.res.Count("mig_sessions", 1)
 	}
 }
 
@@ -566,7 +711,7 @@ func tinyRefusals(logs *observer.ObservedLogs) []string {
 func runGroup(t *testing.T, res *vio.Result, w *world, g *liveGroup, seed int64) {
 	ctx, cancel := context.WithCancel(context.Background())
 	defer cancel()
-	r := &liveRunner{t: t, res: res, w: w, g: g, ctx: ctx, rnd: uint64(seed)*977 + 31}
+	r := &liveRunner{t: t, res: res, w: w, g: g, ctx: ctx, rnd: uint64(seed)*977 + 31, kp: "udp.live"}
 	var err error
 	if r.d, r.dAP, err = listenUDP(g.Lfam); err != nil {
 		res.Break("live: %v", err)
@@ -590,8 +735,12 @@ func runGroup(t *testing.T, res *vio.Result, w *world, g *liveGroup, seed int64)
 	dir := t.TempDir()
 
 	// the relay under test: one server of protocol sp, client c of protocol cp pointing at the upstream socket
+	listenAddr := net.JoinHostPort(loopback(g.Lfam), "0")
+	if g.Listen == "dual" {
+		listenAddr = "[::]:0"
+	}
 	sc := map[string]any{"name": "front", "protocol": protoName[g.Sp], "mtu": g.Smtu, "paddingPolicy": polName(g.Rpol),
-		"udpListeners": []map[string]any{{"network": "udp", "address": net.JoinHostPort(loopback(g.Lfam), "0"), "batchMode": g.Batch, "relayBatchSize": 8, "serverRecvBatchSize": 8,
+		"udpListeners": []map[string]any{{"network": "udp", "address": listenAddr, "batchMode": g.Batch, "relayBatchSize": 8, "serverRecvBatchSize": 8,
 			"natTimeout": "70s"}}}
 	var tunnel conn.Addr
 	switch g.Sp {
@@ -738,13 +887,6 @@ func runGroup(t *testing.T, res *vio.Result, w *world, g *liveGroup, seed int64)
 		res.Break("live: the relay %s->%s did not report its listener", g.Sp, g.Cp)
 		return
 	}
-	d0, err := r.down(1500)
-	if err != nil {
-		res.Break("live: downstream link: %v", err)
-		return
-	}
-
-	// hello: open the session both ways (retried while the listener comes up)
 	buf := make([]byte, 64+140000)
 	target := tunnel
 	if !target.IsValid() {
@@ -754,6 +896,17 @@ func runGroup(t *testing.T, res *vio.Result, w *world, g *liveGroup, seed int64)
 		}
 	}
 	r.htgt = target
+	if len(g.Sessions) > 0 {
+		r.runSessions(buf)
+		return
+	}
+	d0, err := r.down(1500)
+	if err != nil {
+		res.Break("live: downstream link: %v", err)
+		return
+	}
+
+	// hello: open the session both ways (retried while the listener comes up)
 	ok := false
 	for i := 0; i < 40 && !ok; i++ {
 		hello := []byte(fmt.Sprintf("C05-HELLO-%d", i))
